@@ -60,4 +60,16 @@ CLAIMS["C20"] = {
             "The RWMutex model reproduces Go's writer preference, which is what turns a re-entrant read lock into a detected deadlock. Sampling of schedules.",
     "note": "Trusted: Go's race detector, the lock model, porcupine v1.3.0. Non-preemptive scheduling: code between two synchronisation points runs atomically, so lost updates show up as race reports rather than as wrong results.",
 }
+
+_chain_note = "Trusted: the reference models of DESIGN Appendix A (refmodel/bft.go etc.), the p2p stub's gossip/RPC model, simfs. Sampling of histories; each node processes events sequentially."
+CLAIMS["C01"] = {"engine": "chainsim", "level": "exploration", "design_ref": "4/C01", "technique": "deterministic simulation of whole nodes: seeded fork shapes from partitions, delays, loss, crashes, validator changes; global one-id-per-finalized-height invariant across all views and times",
+    "text": "Whole real nodes on a simulated network; every height any view reports as final is recorded globally and a second id for a height is a violation, provided the premise (honest validators non-contradicting, standard thresholds) holds, which is itself monitored.", "note": _chain_note}
+CLAIMS["C02"] = {"engine": "chainsim", "level": "exploration", "design_ref": "4/C02, A.1", "technique": "deterministic simulation + refinement: every node's BFT store compared after every applied block with an independent executable LIP-0058 model evaluated on the simulator's fork tree",
+    "text": "Refinement check of the real Lisk-BFT module against a naive persistent reference model over the histories the simulated network produces (forks, syncs, validator changes, chains longer than the window).", "note": _chain_note}
+CLAIMS["C04"] = {"engine": "chainsim", "level": "exploration", "design_ref": "4/C04", "technique": "deterministic simulation: finalized-height monotonicity / stability invariants observed synchronously with every applied block, across reorgs, syncs, failed syncs and restarts",
+    "text": "Invariants on the stored finalized height, the ids served at finalized heights and the finalize events, evaluated inside the executer's event publication (state exactly as the operation left it).", "note": _chain_note}
+CLAIMS["C05"] = {"engine": "chainsim", "level": "exploration", "design_ref": "4/C05", "technique": "deterministic simulation: byte-level database dump comparison before apply / after delete for every deletion the system performs",
+    "text": "Every tip deletion the nodes perform themselves is followed, synchronously, by a full blockchain-DB dump comparison with the dump recorded before the deleted block was applied.", "note": _chain_note}
+CLAIMS["C15"] = {"engine": "chainsim", "level": "exploration", "design_ref": "4/C15", "technique": "deterministic simulation: own-validation of every generated block and pairwise non-contradiction of all headers a key signs across chain switches, failed syncs and restarts",
+    "text": "The real generator runs on every node; each block it hands on must be accepted by the node's own processing, and the generator DB is read after every forge to collect the signed header triples, which must be pairwise non-contradicting.", "note": _chain_note}
 PENDING = {}
